@@ -208,6 +208,14 @@ def rule_hook(E, R):
             c2 = _closure_in(lv[0])
             cmpz = [b for b in exprs(c2["body"], "Binary")] if c2 else []
             good = len(cmpz) == 1 and cmpz[0]["op"] == "Gt" and lit_value(cmpz[0]["r"]) == 0
+            # the level alone decides: no other flag may be and-ed / or-ed into the condition
+            whole = strip(i["cond"])
+            alone = whole is lv[0] or (whole.get("k") == "MethodCall" and whole is strip(lv[0]))
+            others = [k for k in ("PANIC_CATCHER_ENABLED", "PANIC_CATCHER_FALLBACK_MODE", "PANIC_CATCHER_HOOK_SET")
+                      if any((def_path(p) or "").endswith(k) for p in exprs(i["cond"], "Path"))]
+            R.check(alone and not others, rule, fn, "recording depends on the catch level only",
+                    "the condition also involves %s: a panic raised while the level is > 0 (e.g. after disable() inside the closure) "
+                    "would not be recorded and catch_panic would return a stale or placeholder message" % (others or "other terms"), i["sp"])
             R.check(good, rule, fn, "the hook records iff this thread's catch level is > 0",
                     "condition is %s %s" % (cmpz[0]["op"] if cmpz else "?", lit_value(cmpz[0]["r"]) if cmpz else "?"), i["sp"])
     if rec_if is None:
